@@ -93,7 +93,7 @@ where
     // IEEE Trans. Inf. Theory.
     let t = err_len / 2;
     let v = lambda_coeff.len() - 1;
-    for j in t..=2 * t - v - 1 {
+    for j in t..err_len - v {
         debug_assert!(syndromes[j..].len() >= lambda_coeff.len());
         let t_j: GF = syndromes[j..]
             .iter()
